@@ -32,7 +32,7 @@ if not ok:
 ok, out = ck.coq_make(["Model/C05_Check.vo"])
 if not ok:
     bail("coq-model-broken", "Coq model of C05 does not compile", out)
-ok, out = ck.coq_make(["Proofs/C05.vo", "Examples/C05.vo"])
+ok, out = ck.coq_make(["Gen/C05_CacheLayout.vo", "Proofs/C05.vo", "Examples/C05.vo"])   # Gen must be rebuilt: Props depends on it
 if not ok:
     broken.append(("coq-make Proofs/C05 Examples/C05", out[-3000:]))
 else:
@@ -251,7 +251,7 @@ def describe(c, upto=None):
         ops.append(d)
         if upto is not None and i >= upto:
             break
-    return {"kind": c["Kind"], "ops": ops}
+    return {"kind": c["Kind"], "one_shared_cache_handle": bool(c.get("Shared")), "ops": ops}
 
 hist_mism, hist_viol = [], []
 evaluated_ok = True
@@ -277,8 +277,13 @@ for ci, txt in hist_viol[:10]:
     opi = int(m.group(1)) if m else len(c["Ops"]) - 1
     o = c["Ops"][opi]
     key = "history:%s:%s" % (c["Kind"], o["Op"])
-    ck.violation(key, "%s under key %d returned %s, which was never stored under that key (history kind %s, op %d)" % (
-        o["Op"], o["K"], json.dumps(o["Res"])[:200], c["Kind"], opi),
+    if o["Op"] == "Put":
+        what = "Put under key %d returned nil but the file named by OutputFile(out) then held %s instead of the stored content %s (history kind %s, op %d, %s)" % (
+            o["K"], json.dumps(o["Res"])[:160], hist["Contents"][o["X"]], c["Kind"], opi, "one shared cache handle" if c.get("Shared") else "handle per op")
+    else:
+        what = "%s under key %d returned %s, which was never stored under that key (history kind %s, op %d)" % (
+            o["Op"], o["K"], json.dumps(o["Res"])[:200], c["Kind"], opi)
+    ck.violation(key, what,
         {"history": describe(c, opi), "rerun": "VERIF_SEED=%d ./check C05 (case %d)" % (ck.seed, ci)})
 for c in cases:
     if c.get("Stray"):
@@ -382,7 +387,9 @@ ck.finish({
     "traces_validated_against_impl": len(cases),
     "histories": len(cases), "history_ops": nops,
     "history_kinds": {k: sum(1 for c in cases if c["Kind"] == k) for k in sorted({c["Kind"] for c in cases})},
-    "lookups_hit_in_histories": sum(1 for c in cases for o in c["Ops"] if o["Res"]["Kind"] in ("file", "bytes", "entry")),
+    "lookups_hit_in_histories": sum(1 for c in cases for o in c["Ops"] if o["Op"].startswith("Get") and o["Res"]["Kind"] in ("file", "bytes", "entry")),
+    "put_postconditions_checked": sum(1 for c in cases for o in c["Ops"] if o["Op"] == "Put"),
+    "shared_handle_histories": sum(1 for c in cases if c.get("Shared")),
     "lookups_miss_in_histories": sum(1 for c in cases for o in c["Ops"] if o["Res"]["Kind"] == "miss"),
     "codec_cases": len(cc), "codec_hits": sum(1 for c in cc if c["Hit"]), "format_cases": len(codec["Format"]),
     "stress": {"ops": stress["Ops"], "lookups_hit": len(lookups), "writers_died": stress["Died"], "getfile_path_gone": stress["Enoent"], "getfile_window_prefix_reads": window},
